@@ -162,7 +162,7 @@ impl<'a> Gen<'a> {
         if r == 1 {
             return el("contour", a, vec![]);
         }
-        if r == 2 {
+        if r == 2 || (self.ver == 1 && r >= 9) {
             // a single move point, named or not: an anchor in format 1
             let nm = if self.rng.chance(2, 3) { Some(self.name()) } else { None };
             let p = self.point(0, false, nm);
@@ -547,28 +547,13 @@ fn textless(n: &Node) -> bool {
     kids_of(n).iter().for_each(|c| texts_of(c, &mut t));
     t.iter().all(|s| blank(s))
 }
-fn f16_outline_child(n: &Node) -> bool {
-    matches!(n, Node::Empty(name, a) if name == "contour" && !a.is_empty())
-}
 fn f16_child(n: &Node) -> bool {
-    match n {
-        Node::Empty(name, a) => (name == "unicode" && !a.iter().any(|e| e.0 == "hex")) || (name == "outline" && !a.is_empty()),
-        Node::Elem(name, a, k) => {
-            (matches!(name.as_str(), "outline" | "lib" | "note") && !a.is_empty())
-                || (name == "note" && k.iter().any(|c| matches!(c, Node::Elem(..) | Node::Empty(..))))
-                || (name == "outline" && tview(k).iter().any(|c| f16_outline_child(c)))
-        }
-        _ => false,
-    }
+    matches!(n, Node::Elem(name, _, k) if name == "note" && k.iter().any(|c| matches!(c, Node::Elem(..) | Node::Empty(..))))
 }
 fn f16(doc: &[Node]) -> bool {
     match root_of(doc) {
         None => false,
-        Some(root) => {
-            let k = tview(kids_of(root));
-            let notes: Vec<&&Node> = k.iter().filter(|n| is_kind(n, "note")).collect();
-            k.iter().any(|n| f16_child(n)) || (notes.len() >= 2 && textless(notes[0]))
-        }
+        Some(root) => tview(kids_of(root)).iter().any(|n| f16_child(n)),
     }
 }
 fn f14_node(depth: u32, n: &Node) -> bool {
@@ -784,7 +769,7 @@ fn inject(doc: &mut Vec<Node>, g: &mut Gen, which: u64) -> Option<Label> {
             let i = g.rng.below(k.len() as u64 + 1) as usize;
             k.insert(i, text_el("note", "second"));
             k.insert(i, first);
-            lab("repeated note, first one without text", false, "F16")
+            lab("repeated note, first one without text", false, "")
         }
         // ---- identifiers
         8 => {
@@ -878,7 +863,7 @@ fn inject(doc: &mut Vec<Node>, g: &mut Gen, which: u64) -> Option<Label> {
         13 => {
             let p = ensure(doc, g, "unicode")?;
             del_attr(node_mut(doc, &p), "hex");
-            lab("unicode without hex", false, "F16")
+            lab("unicode without hex", false, "")
         }
         // ---- guidelines
         14 => {
@@ -947,7 +932,7 @@ fn inject(doc: &mut Vec<Node>, g: &mut Gen, which: u64) -> Option<Label> {
             let n = node_mut(doc, &p);
             let k = *g.rng.pick(&["bogus", "identifier", "name"]);
             set_attr(n, k, "1", g.rng);
-            lab(&format!("attribute on {}", kind), false, "F16")
+            lab(&format!("attribute on {}", kind), false, "")
         }
         // ---- lib
         19 => {
@@ -1078,9 +1063,6 @@ fn inject(doc: &mut Vec<Node>, g: &mut Gen, which: u64) -> Option<Label> {
             }
             let e = a[g.rng.below(a.len() as u64) as usize].clone();
             a.push(e);
-            if n.name() == Some("outline") || n.name() == Some("lib") || n.name() == Some("note") || (n.name() == Some("contour") && matches!(n, Node::Empty(_, _))) {
-                return None;
-            }
             lab("repeated attribute", false, "")
         }
         // ---- legal surface forms norad rejects (F14, F17)
@@ -1142,7 +1124,7 @@ fn inject(doc: &mut Vec<Node>, g: &mut Gen, which: u64) -> Option<Label> {
                 _ => (vec![at("identifier", "x"), at("identifier", "x")], false, "repeated attribute"),
             };
             insert_child(doc, &op, g.rng, em("contour", a));
-            lab(&format!("self-closing contour with {}", what), legal, if legal { "" } else { "F16" })
+            lab(&format!("self-closing contour with {}", what), legal, "")
         }
         39 => {
             // the identifier of a self-closing contour is not registered: a later duplicate passes
@@ -1155,7 +1137,7 @@ fn inject(doc: &mut Vec<Node>, g: &mut Gen, which: u64) -> Option<Label> {
             let kind = *g.rng.pick(&["anchor", "guideline", "component", "point"]);
             let p = ensure(doc, g, kind)?;
             set_attr(node_mut(doc, &p), "identifier", &id, g.rng);
-            lab(&format!("identifier of a self-closing contour repeated on {}", kind), false, "F16")
+            lab(&format!("identifier of a self-closing contour repeated on {}", kind), false, "")
         }
         40 => {
             if ver == 1 {
@@ -1318,6 +1300,34 @@ fn node_ref<'a>(doc: &'a [Node], path: &[usize]) -> &'a Node {
     n
 }
 
+/// the rules a returned glyph must satisfy whatever the document was (C12_returned_glyph_rules)
+fn returned_glyph_breaks_rules(g: &norad::Glyph, ver: u32) -> Option<String> {
+    if g.contours.iter().any(|c| c.points.is_empty()) {
+        return Some("a contour without points".into());
+    }
+    let mut ids: Vec<String> = Vec::new();
+    ids.extend(g.anchors.iter().filter_map(|a| a.identifier().map(|i| i.as_str().to_string())));
+    ids.extend(g.guidelines.iter().filter_map(|a| a.identifier().map(|i| i.as_str().to_string())));
+    ids.extend(g.components.iter().filter_map(|a| a.identifier().map(|i| i.as_str().to_string())));
+    for c in &g.contours {
+        ids.extend(c.identifier().map(|i| i.as_str().to_string()));
+        ids.extend(c.points.iter().filter_map(|p| p.identifier().map(|i| i.as_str().to_string())));
+    }
+    let n = ids.len();
+    ids.sort();
+    ids.dedup();
+    if ids.len() != n {
+        return Some("identifiers not unique within the glyph".into());
+    }
+    if g.lib.contains_key("public.objectLibs") {
+        return Some("public.objectLibs left in the lib".into());
+    }
+    if ver == 1 && g.contours.iter().any(|c| c.points.len() == 1 && c.points[0].typ == norad::PointType::Move && c.points[0].name.is_some()) {
+        return Some("format 1: a single named move point was not turned into an anchor".into());
+    }
+    None
+}
+
 fn node_of_json(v: &serde_json::Value) -> Node {
     let arr = v.as_array().expect("node");
     let tag = arr[0].as_str().unwrap_or("");
@@ -1340,14 +1350,15 @@ fn node_of_json(v: &serde_json::Value) -> Node {
 }
 
 fn emit(out: &mut String, id: i64, ver: u32, label: &Label, doc: &[Node], xml: &str, corpus: &str) {
-    let (tm, short, _) = parse_outcome(xml.as_bytes());
+    let (tm, short, parsed) = parse_outcome(xml.as_bytes());
+    let rules = parsed.as_ref().and_then(|g| returned_glyph_breaks_rules(g, ver)).unwrap_or_default();
     let (c14, c16, c17) = (f14(doc), f16(doc), f17(doc));
     let tm = Xt::L(vec![tm, Xt::L(vec![Xt::b(label.legal), Xt::b(c14), Xt::b(c16), Xt::b(c17)])]);
     let tbl = pf_table(doc);
     let _ = std::fmt::Write::write_fmt(
         out,
         format_args!(
-            "{{\"id\":{},\"ver\":{},\"inj\":{},\"legal\":{},\"class\":{},\"f14\":{},\"f16\":{},\"f17\":{},\"impl\":{},\"case\":{},\"exp\":{},\"xml\":{},\"corpus\":{}}}\n",
+            "{{\"id\":{},\"ver\":{},\"inj\":{},\"legal\":{},\"class\":{},\"f14\":{},\"f16\":{},\"f17\":{},\"rules\":{},\"impl\":{},\"case\":{},\"exp\":{},\"xml\":{},\"corpus\":{}}}\n",
             id,
             ver,
             json_str(&label.inj),
@@ -1356,6 +1367,7 @@ fn emit(out: &mut String, id: i64, ver: u32, label: &Label, doc: &[Node], xml: &
             c14,
             c16,
             c17,
+            json_str(&rules),
             json_str(&short),
             json_str(&Xt::L(vec![xt_doc(doc), xt_pf_table(&tbl)]).packed()),
             json_str(&tm.packed()),
